@@ -170,7 +170,7 @@ reply_values = st.one_of(wide_text, big_texts(), st.lists(wide_text, max_size=4)
 @st.composite
 def response_cases(draw):
     return {"result": draw(reply_values), "sizes": draw(st.lists(st.integers(1, 1500), max_size=40)),
-            "gzip": draw(st.booleans()), "ascii": draw(st.booleans()), "mode": draw(st.sampled_from(["http", "duck", "duck"]))}
+            "gzip": draw(st.sampled_from([False, False, True, 1, 2, 3, 5])), "ascii": draw(st.booleans()), "mode": draw(st.sampled_from(["http", "duck", "duck"]))}
 
 
 class DuckResponse(object):
@@ -210,9 +210,14 @@ def client_receive(result, sizes, use_gzip, ensure_ascii, mode="http"):
     body = text.encode("utf-8")
     headers = ["HTTP/1.1 200 OK"]
     if use_gzip:
+        # a gzip stream may consist of several members (RFC 1952): cut the body into `use_gzip` pieces
+        members = use_gzip if isinstance(use_gzip, int) and not isinstance(use_gzip, bool) else 1
+        step = max(1, -(-len(body) // members))
+        pieces = [body[i:i + step] for i in range(0, len(body), step)] or [b""]
         buf = io.BytesIO()
-        with gzip.GzipFile(fileobj=buf, mode="wb", mtime=0) as gz:
-            gz.write(body)
+        for piece in pieces:
+            with gzip.GzipFile(fileobj=buf, mode="wb", mtime=0) as gz:
+                gz.write(piece)
         body = buf.getvalue()
         headers.append("Content-Encoding: gzip")
     headers.append("Content-Length: %d" % len(body))
@@ -220,7 +225,10 @@ def client_receive(result, sizes, use_gzip, ensure_ascii, mode="http"):
     if mode == "duck":
         tr = J.Transport(cfg)
         resp = DuckResponse(body, sizes, {"content-encoding": "gzip"} if use_gzip else {})
-        got_text = tr.parse_response(resp)
+        try:
+            got_text = tr.parse_response(resp)
+        except Exception as ex:
+            fail("C17/client-reassembly%s" % (":gzip" if use_gzip else ""), "parse_response raised %s: %s" % (type(ex).__name__, str(ex)[:200]), {"text": repr(text)[:200]})
         reads = resp.reads
         # also the parser/target pair fed directly
         parser, target = tr.getparser()
@@ -244,9 +252,13 @@ def client_receive(result, sizes, use_gzip, ensure_ascii, mode="http"):
                 return conn
 
         proxy = J.ServerProxy("http://loopback/", transport=T(cfg), config=cfg)
-        got_text = proxy("transport").request("loopback", "/", '{"jsonrpc": "2.0", "id": 1, "method": "m"}')
-        reads = conns[0].last_file.reads
-        value = proxy.m()
+        try:
+            got_text = proxy("transport").request("loopback", "/", '{"jsonrpc": "2.0", "id": 1, "method": "m"}')
+            reads = conns[0].last_file.reads
+            value = proxy.m()
+        except Exception as ex:
+            fail("C17/client-reassembly%s" % (":gzip" if use_gzip else ""), "receiving a valid %s response raised %s: %s" % (
+                "gzip" if use_gzip else "identity", type(ex).__name__, str(ex)[:200]), {"text": repr(text)[:200]})
         if not gen.strict_eq(value, gen.norm(result)):
             fail("C17/client-reassembly-value", "proxy returned %r" % (value,))
     if got_text != text:
@@ -260,7 +272,7 @@ def oracle_response(case):
     nbytes = len(text.encode("utf-8"))
     multibyte = nbytes != len(text)
     nt = multibyte and (len(reads) > 1 or nbytes > 1024)
-    classes = ["client-response", "mode:" + case["mode"], "gzip" if case["gzip"] else "identity", "size:%s" % ("<=1024" if nbytes <= 1024 else ">1024")]
+    classes = ["client-response", "mode:" + case["mode"], ("gzip-members:%d" % (1 if case["gzip"] is True else case["gzip"])) if case["gzip"] else "identity", "size:%s" % ("<=1024" if nbytes <= 1024 else ">1024")]
     if multibyte:
         classes.append("multibyte-body")
     return Info(nt=nt, classes=classes, sample={"bytes": nbytes, "reads": reads[:12], "gzip": case["gzip"], "text": text[:80]})
